@@ -127,6 +127,13 @@ var extraQueries = []string{
 	"match (n)-[r]->(m) where n.name = $a and m.name = $b and type(r) = $c return n, m",
 	"match p = shortestPath((n)-[*1..]->(m)) where n.name = $a return p",
 	"match (n) optional match (n)-[r]->(m) with n, collect(m) as ms return n, ms",
+	// several inline properties per pattern element (map-literal order must not leak into the SQL)
+	"match (n:NodeKind1 {name: 'a', objectid: 'b', domain: 'c', enabled: true})-[r:EdgeKind1 {isacl: false, source: $source, weight: 3}]->(g:NodeKind2 {name: 'admins', tier: 0}) return n, r, g",
+	"match (n {a: 1, b: 2}) return n",
+	"match (n {a: 1, b: 2, c: 3, d: 4, e: 5}) return n.a",
+	"match ()-[r {x: 1, y: 'two', z: false}]->() return r",
+	"match p = (n {k1: 'v1', k2: 'v2', k3: 'v3'})-[*1..2]->(m {k4: 4, k5: 5}) return p",
+	"match (n) where n.props = {a: 1, b: 2, c: 3} return n",
 }
 
 // names the translator itself generates (IdentifierGenerator prefixes and fixed column names)
@@ -195,6 +202,12 @@ func TestVerifBoundedTranslate(t *testing.T) {
 		sql2, p2, err2, _ := safeTranslate(model, km, params)
 		if (err1 == nil) != (err2 == nil) || sql1 != sql2 || !reflect.DeepEqual(p1, p2) {
 			fail("C05 repeated translation differs for %q", tc.Cypher)
+		}
+		for rep := 0; rep < 6 && err1 == nil; rep++ {
+			if sqlN, pN, errN, _ := safeTranslate(model, km, params); errN != nil || sqlN != sql1 || !reflect.DeepEqual(p1, pN) {
+				fail("C05 repeated translation differs for %q (repetition %d)", tc.Cypher, rep+3)
+				break
+			}
 		}
 		var wg sync.WaitGroup
 		results := make([]string, 8)
